@@ -16,6 +16,7 @@ import (
 	"math/rand"
 	"os"
 	"runtime"
+	"strings"
 	"sync"
 
 	"github.com/tdewolff/parse/v2"
@@ -263,6 +264,73 @@ var tasks = []task{
 		fmt.Fprint(h, k, len(big.Shift()), big.Err())
 		return hex.EncodeToString(h.Sum(nil))
 	}},
+	// errors handed out earlier stay what they were while other sources, of the same kind and with the same kind of error, are
+	// processed by other instances: every error is formatted when it is handed out and once more at the end of the task
+	{"errors-kept", func(r *rand.Rand, c map[string][]string) string {
+		type kept struct {
+			err  error
+			then string
+		}
+		var ks []kept
+		hold := func(err error) {
+			if err != nil {
+				ks = append(ks, kept{err, err.Error()})
+			}
+		}
+		pad := strings.Repeat("\n", r.Intn(4)) + strings.Repeat(" ", r.Intn(7))
+		for _, src := range []string{"<svg>a\x00b</svg>", pad + "<math>\n  \x00</math>", "<p>" + pad + "<svg><g>\x00", pad + "<x:xml>\x00", "<svg>" + pad + "\x00"} {
+			l := html.NewLexer(parse.NewInputString(src))
+			for i := 0; i < 64; i++ {
+				if tt, _ := l.Next(); tt == html.ErrorToken {
+					hold(l.Err())
+					break
+				}
+			}
+		}
+		for _, src := range []string{"<a>\x00", pad + "<b c='\x00'>", "<a>" + pad + "<!--\x00-->"} {
+			l := xml.NewLexer(parse.NewInputString(src))
+			for i := 0; i < 64; i++ {
+				if tt, _ := l.Next(); tt == xml.ErrorToken {
+					hold(l.Err())
+					break
+				}
+			}
+		}
+		for _, src := range []string{"a = @", pad + "let x = `${", "a;" + pad + "b = 1 2", pad + "x = '"} {
+			_, err := js.Parse(parse.NewInputString(src), js.Options{})
+			hold(err)
+		}
+		for _, src := range []string{"a{b c}", pad + "a{b c}d{e f}", "a{" + pad + "b c; d e}"} {
+			p := css.NewParser(parse.NewInputString(src), false)
+			for i := 0; i < 64; i++ {
+				gt, _, _ := p.Next()
+				if gt == css.ErrorGrammar {
+					if p.Err() == io.EOF {
+						break
+					}
+					hold(p.Err())
+				}
+			}
+		}
+		for _, src := range []string{"{\"a\" 1}", pad + "[1 2]", "[" + pad + "}"} {
+			p := pjson.NewParser(parse.NewInputString(src))
+			for i := 0; i < 64; i++ {
+				if gt, _ := p.Next(); gt == pjson.ErrorGrammar {
+					hold(p.Err())
+					break
+				}
+			}
+		}
+		h := sha1.New()
+		for i, k := range ks {
+			now := k.err.Error()
+			if now != k.then {
+				return fmt.Sprintf("inconsistent: error %d read %q when it was handed out and %q after other sources were processed", i, k.then, now)
+			}
+			fmt.Fprint(h, now, ";")
+		}
+		return hex.EncodeToString(h.Sum(nil))
+	}},
 	{"binary", func(r *rand.Rand, c map[string][]string) string {
 		w := parse.NewBinaryWriter(nil)
 		v := r.Uint64()
@@ -382,7 +450,7 @@ func Run(args []string) {
 			w.Begin(tid)
 			w.Ev("Open", tr.E{"goroutine": g, "goroutines": cfg.g, "gomaxprocs": cfg.procs})
 			for _, r := range results[g] {
-				same := r.dig == solo[r.id]
+				same := r.dig == solo[r.id] && !strings.HasPrefix(r.dig, "inconsistent:")
 				if !same {
 					mism++
 				}
@@ -464,7 +532,7 @@ func History(args []string) {
 	w.Ev("Open", tr.E{"mode": "history"})
 	diff := 0
 	for i := 0; i < *n; i++ {
-		same := first[i] == second[i] && first[i] == third[i]
+		same := first[i] == second[i] && first[i] == third[i] && !strings.HasPrefix(first[i], "inconsistent:")
 		if !same {
 			diff++
 		}
